@@ -8,6 +8,7 @@ From HexVerif Require Import XAst XSem IsaMon XCodegenExpr XCodegenStmt XCodegen
 From HexVerif Require Import XConstProp.
 From HexVerif Require XFront.
 From HexVerif Require AsmListingRead.
+From HexVerif Require SimTraceText.
 Extraction Language OCaml.
 Separate Extraction WMap.rd WMap.wr WMap.zero WMap.empty WMap.load_words PositiveMap.elements
   Isa.step Isa.run Isa.boot Isa.words_of_bytes
@@ -24,4 +25,5 @@ Separate Extraction WMap.rd WMap.wr WMap.zero WMap.empty WMap.load_words Positiv
   IsaMon.accesses IsaMon.acc_ok IsaMon.state_ok IsaMon.mon_ok XCodegenExpr.cg XCodegenExpr.frame_venv XCodegenExpr.first_temp XCodegenStmt.cproc XCodegenProgram.model_compile
   XConstProp.tree XConstProp.tree_opt XConstProp.front XConstProp.repo_arith XConstProp.repo_rejects_nonconst_val XConstProp.gen_const
   XFront.lex XFront.front_located XFront.front XFront.diag_message
-  AsmListingRead.read_listing_line AsmListingRead.read_listing AsmListingRead.is_total_line AsmListingRead.listing_lines.
+  AsmListingRead.read_listing_line AsmListingRead.read_listing AsmListingRead.is_total_line AsmListingRead.listing_lines
+  SimTraceText.prefix_text SimTraceText.has_debug SimTraceText.read_prefix.
